@@ -128,6 +128,22 @@ func Replay(id, file string) int {
 	if fn, ok := Replayers[id]; ok {
 		return fn(&v)
 	}
+	d, _ := json.Marshal(v.Detail)
+	var det struct {
+		Job     *genrun.Job     `json:"job"`
+		Pair    *genrun.Job     `json:"pair"`
+		Prop    string          `json:"prop"`
+		Payload json.RawMessage `json:"payload"`
+	}
+	if json.Unmarshal(d, &det) == nil && det.Job != nil && det.Prop != "" {
+		// a behavioural counterexample: regenerate, compile, run the driver job alone
+		run := report.NewReplayRun(id)
+		env := NewEnv(false)
+		defer env.Close()
+		fmt.Printf("replaying state %s\ninput of the recorded violation: %s\n", v.State, v.Input)
+		RunBatch(run, env, []BState{{ID: v.State, Attrs: map[string]string{}, Gen: det.Job, Pair: det.Pair, Prop: det.Prop, Payload: det.Payload}}, 1)
+		return run.Finish()
+	}
 	return replayJob(&v)
 }
 
